@@ -35,8 +35,12 @@ class Table:
 
 class RefEncoder:
     def __init__(self, r: random.Random, phys: int, maxn: int, maxp: int, maxd: int, version: int = 1,
-                 logical: int = 0, name: str = "", gen: bool = True, star: bool = True) -> None:
+                 logical: int = 0, name: str = "", gen: bool = True, star: bool = True, edge_p: float = 0.0, natural_split_p: float = 0.0) -> None:
         self.r = r
+        self.natural_split_p = natural_split_p  # how often an IRI is split after its last '/' or '#' (else: anywhere)
+        self.pairs: dict[tuple[int, int], str] = {}
+        self.pair_reuse = 0  # IRIs whose (prefix slot, name slot) pair stood for another IRI before
+        self.edge_p = edge_p  # how often a freely chosen slot is the highest free one (ids at the top edge of a table)
         self.phys, self.version, self.logical, self.name = phys, version, logical, name
         self.gen, self.star = gen, star
         self.names, self.prefixes, self.datatypes = Table(maxn), Table(maxp), Table(maxd)
@@ -77,7 +81,7 @@ class RefEncoder:
             if seq in choices and k < 0.5:
                 slot = seq
             elif empties and k < 0.8:
-                slot = r.choice(empties)
+                slot = max(empties) if r.random() < self.edge_p else r.choice(empties)
             else:
                 slot = r.choice(choices)
         explicit = slot
@@ -102,6 +106,8 @@ class RefEncoder:
         else:
             # any split point is legal (on character boundaries)
             k = r.choice([0, len(s), s.rfind("/") + 1, s.rfind("#") + 1, r.randint(0, len(s))])
+            if r.random() < self.natural_split_p:
+                k = max(s.rfind("/"), s.rfind("#")) + 1
         prefix, name = s[:k], s[k:]
         if prefix == "" and self.last_pid == 0:
             pid_wire = 0
@@ -116,6 +122,10 @@ class RefEncoder:
         self.last_nid = nslot
         msg.prefix_id = pid_wire
         msg.name_id = nid_wire
+        key = (self.last_pid, nslot)
+        if self.pairs.get(key, s) != s:
+            self.pair_reuse += 1
+        self.pairs[key] = s
 
     def literal(self, t: gs.Literal, msg) -> None:
         msg.lex = t._lex
